@@ -13,6 +13,7 @@ PROPS = ["MxlVerif.Props.C13", "MxlVerif.Props.C13Main"]
 
 def setup(ctx):
     ctx.build(PROPS)
+    ctx.shrinker = cc.shrink_case
     ctx.rule = (
         "(a) exhaustive: all classification graphs with 3 derived quantities, each with 1-2 arguments drawn from "
         "{plain parameter, assignment-defined parameter, variable, time, the other derived} in 2 declaration orders "
